@@ -963,7 +963,17 @@ func (c *rowopsCtx) history(nops int) string {
 				k, v := genKey(r), genValue(r, 0)
 				desc = describeOp("ImportAtKey", k, v)
 				op = fmt.Sprintf("OImportAtKey %s %s", gStr(k), gRv(v, sink))
+				wasNew := !row.Has(k)
 				err = row.ImportAtKey(k, v)
+				// a row handed for a NEW key is what a lookup of that key returns: same member names in the same order
+				if given, isRow := v.(jsonline.Row); isRow && wasNew && err == nil {
+					c.rep.OracleChecks["C06"]++
+					got, _ := row.GetValue(k)
+					gotRow, stillRow := got.(jsonline.Row)
+					if !stillRow || fmt.Sprintf("%q", rowKeys(gotRow)) != fmt.Sprintf("%q", rowKeys(given)) {
+						c.violate("C06", fmt.Sprintf("the row stored under the new key %q (members %q) is looked up as %T", k, rowKeys(given), got), map[string]interface{}{"stream": "rowops", "history": strings.Join(append(append([]string{}, hist...), desc), " ; ")})
+					}
+				}
 				ref.touch(k)
 			case 7:
 				i, v := r.intn(9)-2, genValue(r, 0)
